@@ -1,9 +1,13 @@
 """C06 — disk cache entries appear atomically and survive crashes intact.
 
-The real DiskCache::put / DiskCache::get are stepped through explicit interleavings (hook H2: named sync
-points), the server is then "killed" (calls in flight never resume) and a fresh DiskCache is opened on the
-directory.  Every distinct prefix of every interleaving of the listed call sets is a case, so every crash
-point of every interleaving is covered.
+The real DiskCache — BOTH of its stores: the result store (put / get) and the nested preprocessor-entry store
+over <root>/preprocessor (put_preprocessor_cache_entry / get_preprocessor_cache_entry) — is stepped through
+explicit interleavings (result store: hook H2 sync points; nested store: before the call and at its first
+write(2) to its temp file, interposed in the harness binary), the server is then "killed" (calls in flight
+never resume) and a fresh DiskCache is opened on the directory.  Every distinct prefix of every interleaving
+of the listed call sets is a case, so every crash point of every interleaving is covered.  After the run and
+after the restart the observation covers the WHOLE tree: lookups in both stores, temp files anywhere under the
+root, current_size, and what each of the two stores indexes (hook DiskCache::verif_indexes).
 """
 from .. import pipeline, sx
 from ..pipeline import Leg
@@ -12,7 +16,8 @@ ID = 'C06'
 HARNESS_BIN = 'c06'
 RUN_MODULE = 'Run.C06'
 THEOREMS = ['C06_get_complete', 'C06_no_errors', 'C06_crash_safe', 'C06_crash_then_get',
-            'C06_uncommitted_invisible', 'C06_lookup_visible', 'C06_hex_keys_not_temp']
+            'C06_uncommitted_invisible', 'C06_lookup_visible', 'C06_hex_keys_not_temp',
+            'C06_crash_safe_tree', 'C06_crash_leaves_temps', 'C06_tree_refines_main']
 ASSUMPTIONS = [
     'atomic steps are the lock sections of DiskCache::put/get (Reserve, each chunk of the unlocked write, Commit or '
     'Abandon; Open, Read); rename(2) switches a directory entry atomically and an open descriptor keeps reading the '
@@ -27,23 +32,39 @@ ASSUMPTIONS = [
     'call\'s temp file (the real write_all cannot be parked half way); recovery never looks at temp file contents',
     'restart uses LruDiskCache::new on the surviving directory; file mtimes are assumed distinct and not in the future '
     '(Lru dir_ok) for the no-error and size statements',
+    'two stores, one tree (Model/DiskTree.v): C06_crash_safe_tree (no temp-named file left anywhere, none indexed '
+    'or counted by either store after a restart, for every schedule of calls on both stores and every crash point) '
+    'is proved for the two-store model; the atomicity theorems (C06_get_complete, C06_no_errors, '
+    'C06_uncommitted_invisible, C06_crash_safe, C06_crash_then_get) are proved for the result store with no '
+    'nested-store call in flight (C06_tree_refines_main: that world is the tree model step for step); content '
+    'integrity of nested-store lookups under interleavings is covered by the stepped differential runs only',
+    'the result store is opened lazily by its first request and scans the whole tree: a nested put in flight at '
+    'that moment loses its temp file and then fails (modelled; nothing partial becomes visible); after a restart '
+    'the result store indexes and may evict the nested store\'s entry files (S18, existing behaviour, modelled)',
     'no other process touches the cache directory',
 ]
 TRUSTED = ['hook H2: verif_hooks::sync at put.before_reserve / put.reserved / put.written / put.committed / '
-           'get.before_lock / get.opened in src/cache/disk.rs (no-ops unless a controller is installed)']
+           'get.before_lock / get.opened in src/cache/disk.rs (no-ops unless a controller is installed)',
+           'hook DiskCache::verif_indexes (read-only view of what the two stores index)',
+           'the harness binary defines `write` (the plain system call, plus a park of a nested-store put before '
+           'its first write to its temp file); file mtimes of touched entry files are rewritten to a logical clock '
+           'after every step (as in C07)']
 
 K1, K2, K3 = b'a1b2c3', b'0f0e0d', b'a1ffee'
+P1, P2 = b'abcdef', b'ab0123'          # keys of the nested (preprocessor-entry) store: preprocessor/a/b/c/abcdef ...
 PAYLOADS = {'A': (1, 100), 'B': (2, 200), 'C': (3, 50), 'D': (4, 300), 'E': (5, 0)}
+PP_PAYLOADS = {'p': (11, 20), 'q': (12, 40), 'r': (13, 90)}
 _ELEN = {}
 
 
 def elens():
-    """real entry lengths of the payloads, from the harness (CacheWrite::finish().len())"""
+    """real entry lengths of the payloads, from the harness (CacheWrite::finish().len() / serialize_to)"""
     if not _ELEN:
         names = sorted(PAYLOADS)
-        out = pipeline.run_sharded([pipeline.harness_bin(HARNESS_BIN), 'size'],
-                                   [sx.dumps(list(PAYLOADS[n])) for n in names], shards=1)
-        for n, o in zip(names, out):
+        pnames = sorted(PP_PAYLOADS)
+        lines = [sx.dumps(list(PAYLOADS[n])) for n in names] + [sx.dumps([b'pp'] + list(PP_PAYLOADS[n])) for n in pnames]
+        out = pipeline.run_sharded([pipeline.harness_bin(HARNESS_BIN), 'size'], lines, shards=1)
+        for n, o in zip(names + pnames, out):
             _ELEN[n] = int(o)
     return _ELEN
 
@@ -57,13 +78,41 @@ def get(key):
     return [b'get', key]
 
 
+def pp_put(key, name, chunks=1):
+    pid, plen = PP_PAYLOADS[name]
+    return [b'pp_put', key, pid, plen, elens()[name], chunks]
+
+
+def pp_get(key):
+    return [b'pp_get', key]
+
+
 def ini(key, name, mtime):
     pid, plen = PAYLOADS[name]
-    return [key, pid, plen, elens()[name], mtime]
+    return [b'main', key, pid, plen, elens()[name], mtime]
+
+
+def pp_ini(key, name, mtime):
+    pid, plen = PP_PAYLOADS[name]
+    return [b'pp', key, pid, plen, elens()[name], mtime]
+
+
+def raw(path, name, mtime):
+    """any other file in the tree (leftover temp files at any depth); the content is that of a result entry"""
+    pid, plen = PAYLOADS[name]
+    return [b'raw', path, pid, plen, elens()[name], mtime]
+
+
+def is_put(t):
+    return t[0] in (b'put', b'pp_put')
+
+
+def is_pp(t):
+    return t[0] in (b'pp_put', b'pp_get')
 
 
 def nsteps(th):
-    return th[5] + 2 if th[0] == b'put' else 2
+    return th[5] + 2 if is_put(th) else 2
 
 
 def prefixes(threads):
@@ -101,50 +150,86 @@ def shapes(tier):
     sh.append(('get/get', big, [ini(K1, 'C', 5), ini(K2, 'D', 6)], [get(K1), get(K1)]))
     sh.append(('put evicts what a get holds open', e['A'] + e['C'] - 1, [ini(K2, 'C', 5)], [put(K1, 'A'), get(K2)]))
     sh.append(('put same key evicts itself', e['A'] + e['C'] - 1, [ini(K1, 'C', 5)], [put(K1, 'A', 2), get(K1)]))
-    sh.append(('leftover temp files', big, [ini(K1, 'C', 5), ini(b'.sccachetmpOLD', 'A', 7), ini(b'.sccachetmpX2', 'E', 3)],
+    sh.append(('leftover temp files', big,
+               [ini(K1, 'C', 5), raw(b'.sccachetmpOLD', 'A', 7), raw(b'.sccachetmpX2', 'E', 3),
+                raw(b'a/1/.sccachetmpDEEP', 'C', 4), raw(b'preprocessor/.sccachetmpPP', 'C', 6),
+                raw(b'preprocessor/a/b/.sccachetmpPPD', 'E', 8)],
                [put(K1, 'A'), get(K1)]))
     sh.append(('empty entry', big, [], [put(K1, 'E'), get(K1)]))
-    sh.append(('one put', big, [], [put(K1, 'A', 3)]))
-    sh.append(('one put too large', e['D'] - 1, [ini(K2, 'C', 5)], [put(K1, 'D')]))
-    sh.append(('one put fills the cache', e['D'], [ini(K2, 'C', 5)], [put(K1, 'D', 2)]))
     sh.append(('failing write/get over an old entry', big, [ini(K1, 'C', 5)], [put(K1, 'A', 2, 1), get(K1)]))
     sh.append(('failing write/put under pressure', e['A'] + e['B'] - 1, [], [put(K1, 'A', 1, 1), put(K2, 'B')]))
     sh.append(('one failing write', big, [], [put(K1, 'D', 2, 1)]))
+    sh.append(('one put', big, [], [put(K1, 'A', 3)]))
+    sh.append(('one put too large', e['D'] - 1, [ini(K2, 'C', 5)], [put(K1, 'D')]))
+    sh.append(('one put fills the cache', e['D'], [ini(K2, 'C', 5)], [put(K1, 'D', 2)]))
     sh.append(('one get', big, [ini(K1, 'C', 5)], [get(K1)]))
     sh.append(('one get, oversized old entry', e['C'] - 1, [ini(K1, 'C', 5)], [get(K1)]))
+    # the nested store
+    sh.append(('one pp_put', big, [], [pp_put(P1, 'p', 2)]))
+    sh.append(('one pp_put over an old entry and leftovers', big,
+               [pp_ini(P1, 'q', 5), raw(b'preprocessor/.sccachetmpPP', 'C', 6), raw(b'.sccachetmpTOP', 'E', 7)],
+               [pp_put(P1, 'p', 2)]))
+    sh.append(('one pp_get', big, [pp_ini(P1, 'q', 5)], [pp_get(P1)]))
+    sh.append(('pp_put/pp_get same key', big, [], [pp_put(P1, 'p', 2), pp_get(P1)]))
+    sh.append(('pp_put/pp_get over an old entry', big, [pp_ini(P1, 'q', 5)], [pp_put(P1, 'p'), pp_get(P1)]))
+    sh.append(('pp_put/pp_put same key', big, [], [pp_put(P1, 'p'), pp_put(P1, 'q', 2)]))
+    sh.append(('pp_put/pp_put under pressure', e['r'] + e['q'] - 1, [pp_ini(P2, 'p', 4)], [pp_put(P1, 'r'), pp_put(P2, 'q')]))
+    sh.append(('pp_put/put', big, [], [pp_put(P1, 'p'), put(K1, 'A')]))
+    sh.append(('pp_put/get: the result store opens while the nested put is in flight', big, [ini(K1, 'C', 5)],
+               [pp_put(P1, 'p', 2), get(K1)]))
+    sh.append(('pp_put/put, room for the result entry only', e['A'] + e['p'] - 1, [pp_ini(P2, 'q', 4)],
+               [pp_put(P1, 'p'), put(K1, 'A')]))
+    sh.append(('pp_get/put', big, [pp_ini(P1, 'q', 5), ini(K1, 'C', 6)], [pp_get(P1), put(K1, 'A')]))
     three = [
         ('put/put/get same key', big, [], [put(K1, 'A'), put(K1, 'B'), get(K1)]),
         ('put/get/get over an old entry', big, [ini(K1, 'C', 5)], [put(K1, 'A'), get(K1), get(K1)]),
         ('put/put/put under pressure', e['A'] + e['B'] + 5, [], [put(K1, 'A'), put(K2, 'B'), put(K3, 'C')]),
         ('put/put/get under pressure', e['A'] + e['B'] - 1, [ini(K3, 'C', 5)], [put(K1, 'A'), put(K2, 'B'), get(K3)]),
+        ('pp_put/put/pp_get', big, [pp_ini(P1, 'q', 5)], [pp_put(P1, 'p'), put(K1, 'A'), pp_get(P1)]),
     ]
     return sh, three
 
 
 POOL_KEYS = [K1, K2, K3]
+POOL_PP = [P1, P2]
+RAW_TEMPS = [b'.sccachetmpZ0', b'.sccachetmpZ1', b'preprocessor/.sccachetmpZ2', b'preprocessor/a/.sccachetmpZ3',
+             b'a/1/.sccachetmpZ4', b'0/.sccachetmpZ5']
 
 
 def gen_random(rng, n, maxthreads):
-    """random call sets, capacities and initial directories; a random interleaving cut at a random point"""
+    """random call sets on both stores, capacities and initial trees; a random interleaving cut at a random point"""
     e = elens()
     names = sorted(PAYLOADS)
+    pnames = sorted(PP_PAYLOADS)
     out = []
     for _ in range(n):
         nt = rng.range(2, maxthreads)
         ths = []
         for _ in range(nt):
-            k = rng.choice(POOL_KEYS)
-            if rng.chance(2, 3):
-                ths.append(put(k, rng.choice(names), rng.range(1, 3), 1 if rng.chance(1, 8) else 0))
+            kind = rng.weighted([('put', 5), ('get', 3), ('pp_put', 4), ('pp_get', 2)])
+            if kind == 'put':
+                ths.append(put(rng.choice(POOL_KEYS), rng.choice(names), rng.range(1, 3), 1 if rng.chance(1, 8) else 0))
+            elif kind == 'get':
+                ths.append(get(rng.choice(POOL_KEYS)))
+            elif kind == 'pp_put':
+                ths.append(pp_put(rng.choice(POOL_PP), rng.choice(pnames), rng.range(1, 2)))
             else:
-                ths.append(get(k))
+                ths.append(pp_get(rng.choice(POOL_PP)))
         init = []
-        for j, k in enumerate(POOL_KEYS):
+        mt = 3
+        for k in POOL_KEYS:
             if rng.chance(1, 2):
-                init.append(ini(k, rng.choice(names), 3 + j))
-        if rng.chance(1, 6):
-            init.append(ini(b'.sccachetmpZ%d' % rng.below(3), rng.choice(names), 9))
-        sizes = sorted(t[4] for t in ths if t[0] == b'put') or [100]
+                init.append(ini(k, rng.choice(names), mt))
+                mt += 1
+        for k in POOL_PP:
+            if rng.chance(1, 3):
+                init.append(pp_ini(k, rng.choice(pnames), mt))
+                mt += 1
+        for path in RAW_TEMPS:
+            if rng.chance(1, 8):
+                init.append(raw(path, rng.choice(names), mt))
+                mt += 1
+        sizes = sorted(t[4] for t in ths if is_put(t)) or [100]
         cap = rng.choice([100000, sizes[-1], sizes[-1] + sizes[0] - 1, sum(sizes) - 1, sum(sizes) + 50, sizes[0]])
         left = [nsteps(t) for t in ths]
         sched = []
@@ -154,7 +239,7 @@ def gen_random(rng, n, maxthreads):
                 left[i] -= 1
                 sched.append(i)
         cut = rng.below(len(sched) + 1) if rng.chance(2, 3) else len(sched)
-        out.append([cap, init, ths, sched[:cut]])
+        out.append([cap, rng.below(2), init, ths, sched[:cut]])
     return out
 
 
@@ -162,25 +247,26 @@ def gen_cases(rng, tier):
     two, three = shapes(tier)
     out = []
     for name, cap, init, ths in two + three:
+        order = 1 if any(is_pp(t) for t in ths) and len(name) % 2 else 0
         for p in prefixes(ths):
-            out.append([cap, init, ths, p])
-    # the other order of the thread list, other chunkings
+            out.append([cap, order, init, ths, p])
+    # the other order of the thread list, other chunkings, the other order of the observations
     for name, cap, init, ths in two:
         if len(ths) == 2:
             alt = [list(t) for t in reversed(ths)]
             for t in alt:
-                if t[0] == b'put':
+                if is_put(t):
                     t[5] = 3
             for p in prefixes(alt):
-                out.append([cap, init, alt, p])
+                out.append([cap, 1, init, alt, p])
     if tier == 'thorough':
         for name, cap, init, ths in three:
             alt = [list(t) for t in reversed(ths)]
             for t in alt:
-                if t[0] == b'put':
+                if is_put(t):
                     t[5] = 2
             for p in prefixes(alt):
-                out.append([cap, init, alt, p])
+                out.append([cap, 1, init, alt, p])
         out += gen_random(rng, 60000, 4)
     else:
         out += gen_random(rng, 4000, 4)
@@ -189,8 +275,24 @@ def gen_cases(rng, tier):
 
 # ------------------------------------------------------------------ the property, on the real observations
 
+TEMP = b'.sccachetmp'
+PP_DIR = b'preprocessor/'
+
+
+def main_path(k):
+    return k[0:1] + b'/' + k[1:2] + b'/' + k
+
+
+def pp_path(k):
+    return PP_DIR + k[0:1] + b'/' + k[1:2] + b'/' + k[2:3] + b'/' + k
+
+
+def is_temp_path(p):
+    return p.split(b'/')[-1].startswith(TEMP)
+
+
 def analyse(case):
-    cap, init, ths, sched = case
+    cap, order, init, ths, sched = case
     occ = [[] for _ in ths]
     for pos, t in enumerate(sched):
         if t < len(ths):
@@ -201,137 +303,216 @@ def analyse(case):
 def monitor(case, out):
     cap, init, ths, sched, occ = analyse(case)
     vs = []
-    if not isinstance(out, list) or len(out) != 7 or not isinstance(out[0], list) or len(out[0]) != len(ths):
+    if not isinstance(out, list) or len(out) != 13 or not isinstance(out[0], list) or len(out[0]) != len(ths):
         return ['malformed implementation output: %r' % (out,)]
-    rs, o1, ntmp1, size1, o2, ntmp2, size2 = out
-    keys = sorted(set([f[0] for f in init if not f[0].startswith(b'.')] + [t[1] for t in ths]))
+    rs = out[0]
+    mkeys = sorted(set([f[1] for f in init if f[0] == b'main'] + [t[1] for t in ths if not is_pp(t)]))
+    pkeys = sorted(set([f[1] for f in init if f[0] == b'pp'] + [t[1] for t in ths if is_pp(t)]))
+    # (store, key, pid) -> entry length;  store: False = result store, True = nested store
     elen_of = {}
+    initial = set()
     for f in init:
-        elen_of[(f[0], f[1])] = f[3]
+        if f[0] in (b'main', b'pp'):
+            elen_of[(f[0] == b'pp', f[1], f[2])] = f[4]
+            initial.add((f[0] == b'pp', f[1], f[2]))
     for t in ths:
-        if t[0] == b'put':
-            elen_of[(t[1], t[2])] = t[4]
-    initial = set((f[0], f[1]) for f in init)
-    # commit position of every store that completed
-    commits = []   # (key, pid, pos)
-    inflight = 0
+        if is_put(t):
+            elen_of[(is_pp(t), t[1], t[2])] = t[4]
+    main_steps = [occ[i][0] for i, t in enumerate(ths) if not is_pp(t) and occ[i]]
+    main_opened_at = min(main_steps) if main_steps else None     # the result store is opened by its first request
+    commits = []   # (store, key, pid, pos)
+    main_inflight = 0
+    pp_inflight = 0
+    pp_inflight_kept = 0    # nested puts reserved after the result store was opened: their temp file stays
     reserved = 0
     for i, t in enumerate(ths):
         r = rs[i]
+        what = '%s %d' % (t[0].decode(), i)
         if r == b'stuck':
-            vs.append('call %d %s never reached its next step (deadlock)' % (i, t[:2]))
+            vs.append('%s never reached its next step (deadlock)' % what)
             continue
-        if r == b'err':
-            if t[0] == b'put' and t[6]:
-                if len(occ[i]) < t[5] + 2:
-                    vs.append('store %d gave up before its write had failed' % i)
-                continue  # its own write failed: the call must end with an error and leave nothing behind
-            vs.append('call %d %s failed with an error' % (i, t[:2]))
-            continue
-        if t[0] == b'put':
+        if is_put(t):
             need = t[5] + 2
-            if r == b'ok' and t[6]:
-                vs.append('store %d reported success although its write failed' % i)
+            fail = t[0] == b'put' and t[6]
+            if r == b'err':
+                if fail:
+                    if len(occ[i]) < need:
+                        vs.append('%s gave up before its write had failed' % what)
+                    continue  # its own write failed: the call must end with an error and leave nothing behind
+                if is_pp(t) and main_opened_at is not None and len(occ[i]) >= need \
+                        and occ[i][0] < main_opened_at < occ[i][need - 1]:
+                    # the result store was opened while this nested put was in flight: its scan of the whole tree
+                    # removes the put's temp file, the put then fails (nothing partial becomes visible)
+                    continue
+                vs.append('%s failed with an error' % what)
+            elif r == b'ok' and fail:
+                vs.append('%s reported success although its write failed' % what)
             elif r == b'ok':
                 if len(occ[i]) < need:
-                    vs.append('store %d reported success before its commit step' % i)
+                    vs.append('%s reported success before its commit step' % what)
                 else:
-                    commits.append((t[1], t[2], occ[i][need - 1]))
+                    commits.append((is_pp(t), t[1], t[2], occ[i][need - 1]))
             elif r == b'unfinished':
                 if len(occ[i]) >= need:
-                    vs.append('store %d did not finish although all its steps were scheduled' % i)
+                    vs.append('%s did not finish although all its steps were scheduled' % what)
                 if len(occ[i]) >= 1:
-                    inflight += 1
-                    reserved += t[4]
+                    if is_pp(t):
+                        pp_inflight += 1
+                        if main_opened_at is not None and main_opened_at < occ[i][0]:
+                            pp_inflight_kept += 1
+                    else:
+                        main_inflight += 1
+                        reserved += t[4]
             elif r == b'too_large':
-                if t[4] <= cap and not any(u[0] == b'put' and j != i for j, u in enumerate(ths)):
-                    vs.append('store %d of %d bytes refused by an otherwise idle cache of %d' % (i, t[4], cap))
+                if t[4] <= cap and not any(is_put(u) and j != i for j, u in enumerate(ths)) and not is_pp(t):
+                    vs.append('%s of %d bytes refused by an otherwise idle cache of %d' % (what, t[4], cap))
             else:
-                vs.append('store %d: unexpected result %r' % (i, r))
-        else:
-            if r == b'unfinished':
-                if len(occ[i]) >= 2:
-                    vs.append('lookup %d did not finish although all its steps were scheduled' % i)
-                continue
+                vs.append('%s: unexpected result %r' % (what, r))
     for i, t in enumerate(ths):
-        if t[0] != b'get':
-            continue
         r = rs[i]
-        if isinstance(r, list) and r and r[0] == b'hit':
-            opened = occ[i][0] if occ[i] else -1
-            ok = (t[1], r[1]) in initial or any(k == t[1] and pid == r[1] and pos < opened for k, pid, pos in commits)
-            if not ok:
-                vs.append('lookup %d of %r returned entry %d, which no store had committed under that key before the lookup'
-                          % (i, t[1], r[1]))
-        elif r == b'torn' or (isinstance(r, list) and r and r[0] == b'foreign'):
-            vs.append('lookup %d of %r returned a partial, mixed or foreign entry: %r' % (i, t[1], r))
-        elif r not in (b'miss', b'unfinished', b'stuck', b'err'):
-            vs.append('lookup %d: unexpected result %r' % (i, r))
+        what = '%s %d' % (t[0].decode(), i)
+        if not is_put(t) and r != b'stuck':
+            if r == b'err':
+                vs.append('%s failed with an error' % what)
+            elif r == b'unfinished':
+                if len(occ[i]) >= 2:
+                    vs.append('%s did not finish although all its steps were scheduled' % what)
+            elif isinstance(r, list) and r and r[0] == b'hit':
+                opened = occ[i][0] if occ[i] else -1
+                ok = (is_pp(t), t[1], r[1]) in initial or \
+                    any(st == is_pp(t) and k == t[1] and pid == r[1] and pos < opened for st, k, pid, pos in commits)
+                if not ok:
+                    vs.append('%s of %r returned entry %d, which no store had committed under that key before the lookup'
+                              % (what, t[1], r[1]))
+            elif r == b'torn' or (isinstance(r, list) and r and r[0] == b'foreign'):
+                vs.append('%s of %r returned a partial, mixed or foreign entry: %r' % (what, t[1], r))
+            elif r != b'miss':
+                vs.append('%s: unexpected result %r' % (what, r))
 
-    def check_obs(label, obs, committed_only):
-        total = 0
+    def complete(store, k, pid):
+        return (store, k, pid) in initial or any(st == store and kk == k and p == pid for st, kk, p, _ in commits)
+
+    def check_lookups(label, store, keys, obs):
+        served = {}
         if not isinstance(obs, list) or len(obs) != len(keys):
             vs.append('%s: malformed observation' % label)
-            return 0
+            return served
         for k, o in zip(keys, obs):
             if o == b'miss':
                 continue
             if isinstance(o, list) and o and o[0] == b'hit':
-                if (k, o[1]) in initial or any(kk == k and pid == o[1] for kk, pid, _ in commits):
-                    total += elen_of[(k, o[1])]
+                if complete(store, k, o[1]):
+                    served[k] = elen_of[(store, k, o[1])]
                 else:
                     vs.append('%s: key %r holds entry %d, which was never committed under that key' % (label, k, o[1]))
             else:
                 vs.append('%s: key %r: %r (not a miss and not a complete entry stored under that key)' % (label, k, o))
+        return served
+
+    def check_index(label, which, idx, mserved, pserved, pending):
+        """every indexed path is an entry file holding a complete value of the recorded size - never a temp file"""
+        if idx == b'none':
+            return None
+        if not isinstance(idx, list):
+            vs.append('%s: malformed index' % label)
+            return None
+        total = 0
+        for e in idx:
+            path, sz = e
+            total += sz
+            if is_temp_path(path):
+                vs.append('%s: the %s indexes the temporary file %r (%d bytes)' % (label, which, path, sz))
+                continue
+            ok = False
+            for k in mkeys:
+                if path == main_path(k):
+                    ok = any(st is False and kk == k and elen_of[(st, kk, pid)] == sz and complete(st, kk, pid)
+                             for (st, kk, pid) in elen_of)
+            for k in pkeys:
+                if path == pp_path(k):
+                    ok = any(st is True and kk == k and elen_of[(st, kk, pid)] == sz and complete(st, kk, pid)
+                             for (st, kk, pid) in elen_of)
+            if not ok:
+                vs.append('%s: the %s indexes %r with %d bytes, which is no complete entry stored there' % (label, which, path, sz))
         return total
 
-    t1 = check_obs('before the crash', o1, True)
-    t2 = check_obs('after restart', o2, True)
-    if keys:
-        if ntmp1 != inflight:
-            vs.append('%d temp files on disk with %d stores in flight' % (ntmp1, inflight))
-        if size1 != t1 + reserved:
-            vs.append('current_size %r but served entries %d + reservations %d' % (size1, t1, reserved))
-        if ntmp2 != 0:
-            vs.append('%d temp files left after restart' % ntmp2)
-        if size2 != t2:
-            vs.append('after restart current_size %r but the entries served add up to %d (something else is counted)' % (size2, t2))
+    raw_temps = [f[1] for f in init if f[0] == b'raw' and is_temp_path(f[1])]
+    top_temps = [q for q in raw_temps if not q.startswith(PP_DIR)]
+
+    def check_obs(label, o, live):
+        om, op, ntmp, size, mi, pi = o
+        ms = check_lookups(label, False, mkeys, om)
+        ps = check_lookups(label, True, pkeys, op)
+        # Temp files in the WHOLE tree.  The lookups of the observation open the stores they address.  Opening the
+        # result store scans the whole tree: every leftover temp file, at any depth, must go (and with it the temp
+        # files of nested puts in flight); opening the nested store scans preprocessor/ only.
+        if mkeys:
+            want = main_inflight + pp_inflight_kept if live else 0
+        else:
+            want = len(top_temps) + (0 if pkeys else len(raw_temps) - len(top_temps)) + (pp_inflight if live else 0)
+        if ntmp != want:
+            if live:
+                vs.append('%s: %d temp files in the cache directory with %d stores in flight' % (label, ntmp, want))
+            else:
+                vs.append('%s: %d temporary files are left in the cache directory (%d expected)' % (label, ntmp, want))
+        mt = check_index(label, 'result store', mi, ms, ps, 0)
+        check_index(label, 'preprocessor-entry store', pi, ms, ps, 0)
+        if mkeys and mi == b'none':
+            vs.append('%s: the result store was used but reports no index' % label)
+        if mt is not None:
+            want = mt + (reserved if live else 0)
+            if size != want:
+                vs.append('%s: current_size %r but the indexed entries add up to %d%s'
+                          % (label, size, mt, (' + reservations %d' % reserved) if live else ''))
+            for k, sz in ms.items():
+                if [main_path(k), sz] not in mi:
+                    vs.append('%s: key %r is served but not indexed with its size' % (label, k))
+        if isinstance(pi, list):
+            for k, sz in ps.items():
+                if [pp_path(k), sz] not in pi:
+                    vs.append('%s: nested key %r is served but not indexed with its size' % (label, k))
+
+    check_obs('before the crash', out[1:7], True)
+    check_obs('after restart', out[7:13], False)
     return vs
 
 
 def nontrivial(case, out):
-    return len(case[3]) > 0
+    return len(case[4]) > 0
 
 
 def stats(case, out):
-    ks = ['threads=%d' % len(case[2]), 'sched_len=%d' % len(case[3])]
+    ks = ['threads=%d' % len(case[3]), 'sched_len=%d' % len(case[4]), 'order=%d' % case[1]]
     try:
-        for t, r in zip(case[2], out[0]):
+        for t, r in zip(case[3], out[0]):
             ks.append('%s=%s' % (t[0].decode(), r.decode() if isinstance(r, bytes) else r[0].decode()))
-        for o in out[4]:
+        for o in out[7] + out[8]:
             ks.append('after_restart=%s' % (o.decode() if isinstance(o, bytes) else o[0].decode()))
+        if isinstance(out[11], list) and any(e[0].startswith(PP_DIR) for e in out[11]):
+            ks.append('restart:result_store_indexes_nested_entries(S18)')
     except Exception:
         ks.append('malformed')
     return ks
 
 
 def shrink(case):
-    cap, init, ths, sched = case
+    cap, order, init, ths, sched = case
     for i in range(len(sched)):
-        yield [cap, init, ths, sched[:i] + sched[i + 1:]]
+        yield [cap, order, init, ths, sched[:i] + sched[i + 1:]]
     for i in range(len(init)):
-        yield [cap, init[:i] + init[i + 1:], ths, sched]
+        yield [cap, order, init[:i] + init[i + 1:], ths, sched]
 
 
 def neighbours(case):
-    cap, init, ths, sched = case
+    cap, order, init, ths, sched = case
+    yield [cap, 1 - order, init, ths, sched]
     for i in range(len(sched) - 1):
         if sched[i] != sched[i + 1]:
             s2 = list(sched)
             s2[i], s2[i + 1] = s2[i + 1], s2[i]
-            yield [cap, init, ths, s2]
+            yield [cap, order, init, ths, s2]
     for p in prefixes(ths)[:300]:
-        yield [cap, init, ths, p]
+        yield [cap, order, init, ths, p]
 
 
 def extra(rep, known):
@@ -342,10 +523,12 @@ def extra(rep, known):
 def legs(tier):
     return [Leg('disk', gen_cases, monitor=monitor, nontrivial=nontrivial, shrink=shrink, neighbours=neighbours,
                 stats=stats,
-                rule='EXHAUSTIVE: every distinct prefix (= crash point) of every interleaving of 21 one- and two-call '
-                     'shapes (put/put same key, put/get, put/put under capacity pressure, get/get, eviction of an open '
-                     'entry, leftover temp files, failing writes, ...) in both thread orders and several chunkings, and '
-                     'of 4 three-call shapes; plus PRNG call sets of 2-4 calls over 3 keys x 5 payloads x 6 capacities '
-                     'with random initial directories, a random interleaving cut at a random point (4000 quick / 60000 '
-                     'thorough); the real put/get are stepped through the schedule at the H2 sync points; '
-                     'non-trivial = at least one step executed; distinct by full case text')]
+                rule='EXHAUSTIVE: every distinct prefix (= crash point) of every interleaving of 32 one- and two-call '
+                     'shapes on both stores (put/put same key, put/get, capacity pressure, get/get, eviction of an open '
+                     'entry, leftover temp files at several depths of the tree, failing writes, pp_put/pp_get, '
+                     'pp_put/pp_put, pp_put against put/get incl. the result store opening under a nested put, ...) in '
+                     'both thread orders, several chunkings and both orders of opening the stores, and of 5 three-call '
+                     'shapes; plus PRNG call sets of 2-4 calls on both stores over 5 keys x 8 payloads x 6 capacities '
+                     'with random initial trees (entries of both stores, temp-named files in 6 places), a random '
+                     'interleaving cut at a random point (4000 quick / 60000 thorough); non-trivial = at least one '
+                     'step executed; distinct by full case text')]
